@@ -8,9 +8,9 @@ cleanup() { git -C /repo worktree remove --force "$WT" 2>/dev/null; rm -rf "$WT"
 trap cleanup EXIT INT TERM
 cd "$WT" || exit 2
 cp "$SRC/demo.py" "$WT/.demo.py"
-PYTHONPATH="$WT" /venv/bin/python .demo.py >/tmp/.demo_clean.out 2>&1; c0=$?
+PYTHONPATH="$WT" /venv/bin/python .demo.py >/tmp/.demo_clean.$$.out 2>&1; c0=$?
 git apply "$SRC/patch.diff" || { echo "CONFIRM $SID: patch does not apply"; exit 3; }
-PYTHONPATH="$WT" /venv/bin/python .demo.py >/tmp/.demo_patched.out 2>&1; c1=$?
+PYTHONPATH="$WT" /venv/bin/python .demo.py >/tmp/.demo_patched.$$.out 2>&1; c1=$?
 summary=$(PYTHONPATH="$WT" timeout 900 /venv/bin/python -m pytest -q -p no:cacheprovider 2>&1 | tail -1)
 echo "CONFIRM $SID: demo clean=$c0 patched=$c1 tests: $summary"
 case "$summary" in *"2000 passed, 8 xfailed, 2 xpassed"*) ok=1;; *) ok=0;; esac
@@ -26,5 +26,5 @@ json.dump(m, open(sys.argv[2], "w"), indent=1)
 PY
   echo "KEPT /verif/seeded/$SID"
 else
-  echo "REJECTED $SID"; tail -5 /tmp/.demo_clean.out; tail -5 /tmp/.demo_patched.out
+  echo "REJECTED $SID"; tail -5 /tmp/.demo_clean.$$.out; tail -5 /tmp/.demo_patched.$$.out
 fi
